@@ -70,6 +70,37 @@ def make_cases(ctx):
     return cases
 
 
+def make_float_cases(ctx):
+    """Floating-point inputs whose partial sums are NOT exactly representable: the selected partial sums are then defined by the
+    left-to-right accumulation in the output precision (numpy.cumsum of the widened input), bit for bit.  float32 values are
+    exact in float32 (2^24 + 1 is not: a sum formed in the input precision loses the 1); float64 values are decimal fractions."""
+    rng = ctx.rng
+    cases = []
+    pools = {'float32': [16777216.0, 1.0, 1.0, 3.0, 0.5, 33554432.0, 1.0, 0.25, 5.0, 1.0, 1.0, 7.0],
+             'float64': [0.1, 0.2, 0.3, 0.7, 1e16, 1.0, 1.0, 0.1, 1e-3, 3.3, 2.0 ** 53, 1.0]}
+    for din in ('float32', 'float64'):
+        for N in (2, 3, 4, 5, 8, 12):
+            for initial, final in itertools.product([False, True], repeat=2):
+                for off in (0, 3):
+                    arr = pools[din][:N]
+                    if rng.random() < 0.5:
+                        arr = arr[::-1]
+                    cases.append({'arr': arr, 'L': N - 1 + int(initial) + int(final), 'initial': initial, 'final': final,
+                                  'offset': off, 'din': din, 'dout': 'float64', 'dlen': 0, 'fl': True})
+    return cases
+
+
+def float_oracle(c):
+    acc = float(c['offset'])
+    sums = [acc]
+    for x in c['arr']:
+        acc = acc + float(x)          # IEEE double, left to right
+        sums.append(acc)
+    sel = sums if c['final'] else sums[:-1]
+    sel = sel if c['initial'] else sel[1:]
+    return {'class': 'ok', 'value': [[v.hex() for v in sel], sums[-1].hex()]}
+
+
 # ------------------------------------------------------------------------------ implementation side
 def impl_cases(payload):
     import numpy as np
@@ -83,6 +114,9 @@ def impl_cases(payload):
         o = np.full(c['L'], SENTINEL, dtype=c['dout'])
         try:
             tot = f(arr, o, initial=c['initial'], final=c['final'], offset=c['offset'])
+            if c.get('fl'):
+                out.append({'class': 'ok', 'value': [[float(x).hex() for x in o], float(tot).hex()]})
+                continue
             vals = [float(x) for x in o] + [float(tot)]
             if any(v != int(v) for v in vals):
                 out.append({'class': 'other', 'value': 'non-integer result'})
@@ -168,6 +202,20 @@ def explore(ctx):
             owners.append(i)
     counterexamples.sort(key=lambda v: (len(v['input']['arr']), v['input']['L']))
     counterexamples = counterexamples[:3]
+    # floating-point inputs: bitwise equal to the left-to-right accumulation in the output precision
+    fcases = make_float_cases(ctx)
+    fres = {'compiled': ctx.run_impl('harness.c19', 'impl_cases', {'cases': fcases}),
+            'boundscheck': ctx.run_impl('harness.c19', 'impl_cases', {'cases': fcases}, {'NUMBA_BOUNDSCHECK': '1'})}
+    for i, c in enumerate(fcases):
+        exp = float_oracle(c)
+        for mode in ('compiled', 'boundscheck'):
+            got = fres[mode][i]
+            if not same(got, exp) and not any(v['key'].startswith('cumsum:float') for v in counterexamples):
+                counterexamples.append({
+                    'key': f"cumsum:float:{c['din']}", 'what': f'cumsum ({mode}) of a floating-point input is not the left-to-right '
+                    'accumulation in the output precision (numpy.cumsum)', 'input': c, 'impl_result': got, 'expected': exp,
+                    'mode': mode, 'predicate': 'out == select(initial, final, numpy.cumsum in the output dtype), bit for bit'})
+    dist['float_cases'] = len(fcases)
 
     mismatches = []
     if ctx.model_available:
@@ -186,7 +234,7 @@ def explore(ctx):
     pyf_dis = sum(1 for i, c in enumerate(cases) if modes['py_func'][i] is not None
                   and not same(modes['py_func'][i], oracle(c)))
     return {
-        'evaluations': len(cases) * 3, 'distinct_nontrivial': len(nontrivial),
+        'evaluations': len(cases) * 3 + 2 * len(fcases), 'distinct_nontrivial': len(nontrivial),
         'rule': 'structured enumeration: N in 0..%d x 4 flag pairs x len(out) in N_out-2..N_out+2 x offsets {0,5,2^33} x '
                 'dtype pairs (rejected lengths sampled over dtypes); each case run compiled, compiled+NUMBA_BOUNDSCHECK=1 '
                 'and py_func; non-trivial = accepted length and N >= 2, distinct by (N, flags, offset, dtypes)'
@@ -215,7 +263,7 @@ def search(ctx, broken):
 
 def replay(ctx, rec):
     c = rec['input']
-    exp = oracle(c)
+    exp = float_oracle(c) if c.get('fl') else oracle(c)
     got = {'compiled': ctx.run_impl('harness.c19', 'impl_cases', {'cases': [c]})[0],
            'boundscheck': ctx.run_impl('harness.c19', 'impl_cases', {'cases': [c]}, {'NUMBA_BOUNDSCHECK': '1'})[0]}
     still = any(not same(g, exp) for g in got.values())
